@@ -30,7 +30,7 @@ NDMINS = [0, 1, 3, -1, "x"]
 FUNCS = ["tensor", "Tensor", "astensor", "asarray"]
 LATTICE = [c for c in itertools.product(KINDS, DTYPES, CONSTS, COPIES, NDMINS, FUNCS)
            if not (c[5] in ("astensor", "asarray") and (c[3] != "default" or c[4] != 0)) and not (c[5] == "asarray" and c[2] is not None)]
-METHODS = [c for c in itertools.product(["t_leaf", "t_const", "t_int", "t_graph", "t_grad", "t_view"], ["copy", "astype"],
+METHODS = [c for c in itertools.product(["t_leaf", "t_const", "t_int", "t_graph", "t_grad", "t_view", "t_viewgrad"], ["copy", "astype"],
                                         [None, "same", "float32", "float64", "int64", "complex64"], CONSTS, [True, False])
            if not (c[1] == "copy" and (c[2] is not None or c[4] is False))]
 N_LAT = len(LATTICE) + len(METHODS)
@@ -114,6 +114,12 @@ def make_input(kind):
         x = mg.tensor(base)
         (x * x).sum().backward()
         return x
+    if kind == "t_viewgrad":
+        x = mg.tensor(base)
+        v = x[:1]
+        (x * x).sum().backward()     # v took no part: its gradient is a VIEW of x.grad
+        v._keep = x
+        return v
     if kind == "t_view":
         x = mg.tensor(base)
         v = x[:1]
@@ -260,7 +266,8 @@ def run_meth(cell, cnt, viol):
         viol.append({"monitor": "model", "mech": f"{meth}-not-detached", "msg": f"{tag}: creator={out.creator} base={out.base} grad={out.grad}"})
     if meth == "copy":   # documented: the copy carries a COPY of the gradient
         g0, g1 = x.grad, out.grad
-        if (g0 is None) != (g1 is None) or (g0 is not None and (not np.array_equal(g0, g1) or np.shares_memory(g0, g1))):
+        # (a copy of a VIEW does not carry the view's derived gradient: documented only for tensors holding their own; not judged)
+        if g1 is not None and (g0 is None or not np.array_equal(g0, g1) or np.shares_memory(g0, g1)):
             if not out.constant:
                 viol.append({"monitor": "model", "mech": "copy-gradient", "msg": f"{tag}: gradient of the copy is not an independent copy of the original's"})
     if out.dtype != np.dtype(tdt) or not np.array_equal(out.data, x.data.astype(tdt)):
@@ -344,6 +351,17 @@ def run_create(a, cnt, viol):
         viol.append({"monitor": "creation", "mech": f"creation-differs:{r}", "msg": f"mg.{r}({amg}, {kw_mg}) -> {got.dtype} {got.shape}; np.{r} -> {want.dtype} {want.shape}"})
     if got.creator is not None or got.base is not None:
         viol.append({"monitor": "creation", "mech": f"creation-not-fresh:{r}", "msg": f"mg.{r} result has creator/base"})
+    # every call creates NEW memory: a second call neither aliases the first nor sees what was written into it
+    if got.size and not r.endswith("_like"):
+        with np.errstate(all="ignore"):
+            got2 = getattr(mg, r)(*amg, **kw_mg)
+            if np.shares_memory(got.data, got2.data):
+                viol.append({"monitor": "creation", "mech": f"creation-aliases-previous-result:{r}", "msg": f"two calls of mg.{r}({amg}, {kw_mg}) share memory"})
+            elif got.data.flags.writeable and not r.startswith("empty"):
+                got.data[...] = (got.data + 1) if got.dtype.kind != "b" else ~got.data
+                got3 = getattr(mg, r)(*amg, **kw_mg)
+                if not np.array_equal(got3.data, want, equal_nan=True):
+                    viol.append({"monitor": "creation", "mech": f"creation-sees-earlier-write:{r}", "msg": f"after writing into an earlier mg.{r} result a new call differs from NumPy"})
 
 
 def run_case(case):
